@@ -9,6 +9,7 @@ from engine import pat
 from engine.util import own_nodes, calls_with_nodes, where, with_exprs
 
 RULES = {
+    "R-08.9": "the size reserved for the TSIG is the size that is written: dns.tsig.mac_sizes agrees with the digest (or truncation) size of every algorithm (C14 R-14.3 adopted) - the placeholder MAC behind the reserve is sized from that table",
     "R-08.8": "the sizes reserved before rendering are those of what is rendered: the placeholder MAC of use_tsig has the size of the algorithm the TSIG template names (one expression for both), and make_response hands the requester's advertised payload (query.payload) to use_edns as request_payload - the default limit of the response",
     "R-08.7": "room for the padding octets themselves: either the renderer bounds the padding it adds by the space left under the limit, or the reserve made before the sections are rendered grows with the block size - otherwise a truncated message plus its padding can exceed the limit and TooBig escapes although truncation was preferred",
     "R-08.6": "the effective limit: max_size 0 means the requester's advertised payload (request_payload) when known, else 65535, and is then clamped to [512, 65535] before the renderer is built; the OPT reserve counts every option the renderer will write (no option is skipped)",
@@ -272,6 +273,7 @@ def run(model, rep, tier):
     t = " ".join(src(wt.node).split())
     rep.check("self.counts[ADDITIONAL] += 1 with self._temporarily_seek_to(10): self.output.write(struct.pack('!H', self.counts[ADDITIONAL]))" in t, "R-08.5", wt.qualname, where(wt, wt.node),
               "ARCOUNT is incremented and back-patched at offset 10", "ARCOUNT back-patch changed", stmt="arcount-patch")
+    rep.share(model, "C14", {"R-14.3"}, "R-08.9", "Message.use_tsig sizes the placeholder MAC with dns.tsig.mac_sizes[algorithm]; _compute_tsig_reserve renders that placeholder")
     rep.meta["explanation"] = (
         "Lexical with-context check for size tracking, dominance rules on _track_size/_rollback and on the ordering of reserve/sections/release/OPT/header/TSIG in Message.to_wire, "
         "def-use completeness of the padding length, and a sibling cross-check of the two TSIG-writing paths. That the truncated prefix parses for every limit value is NOT decided.")
